@@ -593,7 +593,7 @@ pub fn stream(storage: bool) -> BoxedStrategy<Vec<u8>> {
                 cat(&ms)
             }),
         ],
-        // deep state: one large message, then more than a thousand small ones
+        // deep state: one large message, then more than a thousand small ones (and a large one behind them)
         1 => (big(), vec(g::message(g::MsgParams { storage: st, large: false, ..Default::default() }), 5..12), 1030usize..2100, any::<u64>()).prop_map(move |(mut first, pool, n, s)| {
             if let RPayload::NonVerbose(_, d) | RPayload::Control(_, d) = &mut first.payload {
                 if d.len() < 5000 {
@@ -606,6 +606,14 @@ pub fn stream(storage: bool) -> BoxedStrategy<Vec<u8>> {
             if !enc.is_empty() {
                 for i in 0..n {
                     b.extend_from_slice(&enc[(s as usize).wrapping_add(i * 7) % enc.len()]);
+                }
+                // ... and often the large message once more behind the long run of small ones, followed by a small one
+                if s & 1 == 0 {
+                    b.extend(refcodec::encode(&first));
+                    b.extend_from_slice(&enc[0]);
+                    if s & 2 == 0 {
+                        b.extend(refcodec::encode(&first));
+                    }
                 }
             }
             b
